@@ -546,6 +546,17 @@ func buildParamsLab() (*Lab, map[string][]pcell, error) {
 			}
 		}
 	}
+	// an operation whose path BEGINS with a parameter: the client resolves the operation path against the server URL,
+	// and a first segment holding a colon must stay a path (package of its own: such a route overlaps the others)
+	leadSpec, _ := json.Marshal(map[string]any{"openapi": "3.0.3", "info": map[string]any{"title": "lead", "version": "1"},
+		"paths": map[string]any{"/{lead}/items/{id}": map[string]any{"get": map[string]any{"operationId": "leadparam",
+			"parameters": []any{map[string]any{"name": "lead", "in": "path", "required": true, "schema": map[string]any{"type": "string"}},
+				map[string]any{"name": "id", "in": "path", "required": true, "schema": map[string]any{"type": "string"}}},
+			"responses": map[string]any{"204": map[string]any{"description": "ok"}}}}}})
+	for _, fw := range Frameworks {
+		pkgs = append(pkgs, LabPkg{Name: "par_" + fw + "_lead", Spec: leadSpec, FW: fw,
+			Cfg: codegen.Configuration{Generate: fwGenerate(fw, codegen.GenerateOptions{Models: true, Client: true})}})
+	}
 	sort.Slice(pkgs, func(i, j int) bool { return pkgs[i].Name < pkgs[j].Name })
 	lab, err := BuildLab(labRoot, "params", pkgs)
 	return lab, cells, err
